@@ -65,6 +65,14 @@ Corpus ==
     attritem |-> ("main" :> <<Set("h", Hash(<<LS(NT.k)>>, <<Arr(<<SP("s1", LI(5))>>)>>)), PrintS(SP("s2", Item(Attr(Var("h"), "k"), SP("s3", LI(0)))))>>),
     incwithloop |-> ("main" :> <<For1("i", L12, <<Include(LS(NT.t1), Hash(<<LS(NT.z)>>, <<SP("s1", Var("i"))>>), TRUE, TRUE, FALSE, FALSE)>>)>>)
                     @@ ("t1" :> <<PrintS(SF("s2", Var("z")))>>),
+    \* the for tag evaluates a filter chain in its sequence on a path of its own: a failure in the middle of the chain
+    forchain |-> ("main" :> <<For("i", "", Filt("sort", SF("s2", Filt("reverse", SF("s1", L12), <<>>)), <<>>), <<PrintS(Var("i"))>>, <<T(<<101>>)>>, TRUE),
+                              For1("j", Filt("reverse", Filt("merge", SF("s3", L12), <<Arr(<<LI(7)>>)>>), <<>>), <<PrintS(Var("j"))>>)>>),
+    \* application callbacks registered under names the engine treats specially (range, length)
+    rangefn |-> ("main" :> <<For("i", "", Spy("range", "s1", L12), <<PrintS(Var("i"))>>, <<T(<<101>>)>>, TRUE),
+                             IfElse(Spy("length", "s2", L12), <<T(<<121>>)>>, <<T(<<110>>)>>), Set("z", Spy("length", "s3", LI(4))), PrintS(Var("z")),
+                             Inc(LS(NT.t1))>>)
+                @@ ("t1" :> <<Block("bb", <<For1("k", Spy("range", "s4", L12), <<PrintS(Spy("length", "s5", Var("k")))>>)>>)>>),
     deep    |-> ("main" :> <<Block("ob", <<For1("i", L12, <<If1(SP("s1", LB(TRUE)), <<Inc(LS(NT.t1))>>)>>)>>)>>)
                 @@ ("t1" :> <<Import(LS(NT.t2), "L"), PrintS(MCall("L", "mm", <<SF("s2", Var("i"))>>))>>) @@ ("t2" :> Lib)
   ]
@@ -76,6 +84,8 @@ Unresolved ==
     nofilter2 |-> [tp |-> ("main" :> <<PrintS(Filt("upper", Filt("nofilter", LS(sX), <<>>), <<>>))>>), err |-> "unknown"],
     nofilterloop |-> [tp |-> ("main" :> <<For1("i", Filt("nofilter", L12, <<>>), <<PrintS(Var("i"))>>)>>), err |-> "unknown"],
     nofilterapply |-> [tp |-> ("main" :> <<Apply("nofilter", <<>>, <<T(sX)>>)>>), err |-> "unknown"],
+    nofilterloop2 |-> [tp |-> ("main" :> <<For("i", "", Filt("sort", Filt("nofilter", L12, <<>>), <<>>), <<PrintS(Var("i"))>>, <<T(sX)>>, TRUE)>>), err |-> "unknown"],
+    nofilterloop3 |-> [tp |-> ("main" :> <<For1("i", Filt("reverse", Filt("merge", Filt("nofilter", L12, <<>>), <<Arr(<<LI(7)>>)>>), <<>>), <<PrintS(Var("i"))>>), T(sX)>>), err |-> "unknown"],
     nofn      |-> [tp |-> ("main" :> <<T(<<97>>), PrintS(Call("nofn", <<LI(1)>>))>>), err |-> "unknown"],
     nofnif    |-> [tp |-> ("main" :> <<If1(Call("nofn", <<>>), <<T(sX)>>)>>), err |-> "unknown"],
     nofnset   |-> [tp |-> ("main" :> <<Set("z", Call("nofn", <<>>)), T(sX)>>), err |-> "unknown"],
@@ -115,11 +125,14 @@ Placements(name) ==
 \* templates reached through a loader in each structure (loader fault candidates)
 Loaded(name) == (DOMAIN Corpus[name]) \ {"main"}
 
+\* how the templates are served: by one loader; with an empty loader registered before / after it; through a ChainLoader
+\* (empty, real, empty).  A template that no loader has is "not found"; a loader that has it and fails is a failure.
+LoaderLayouts == {"only", "front", "back", "chain"}
 Cases ==
-    UNION {{[kind |-> "fault", s |-> name, id |-> p.id, nth |-> p.nth, fl |-> "", front |-> FALSE] : p \in Placements(name)} : name \in DOMAIN Corpus}
-    \cup {[kind |-> "base", s |-> name, id |-> "", nth |-> 0, fl |-> "", front |-> fr] : name \in DOMAIN Corpus, fr \in BOOLEAN}
-    \cup UNION {{[kind |-> "loader", s |-> name, id |-> "", nth |-> 0, fl |-> t, front |-> fr] : t \in Loaded(name), fr \in BOOLEAN} : name \in DOMAIN Corpus}
-    \cup {[kind |-> "unresolved", s |-> name, id |-> "", nth |-> 0, fl |-> "", front |-> fr] : name \in DOMAIN Unresolved, fr \in BOOLEAN}
+    UNION {{[kind |-> "fault", s |-> name, id |-> p.id, nth |-> p.nth, fl |-> "", ly |-> "only"] : p \in Placements(name)} : name \in DOMAIN Corpus}
+    \cup {[kind |-> "base", s |-> name, id |-> "", nth |-> 0, fl |-> "", ly |-> ly] : name \in DOMAIN Corpus, ly \in LoaderLayouts}
+    \cup UNION {{[kind |-> "loader", s |-> name, id |-> "", nth |-> 0, fl |-> t, ly |-> ly] : t \in Loaded(name), ly \in LoaderLayouts} : name \in DOMAIN Corpus}
+    \cup {[kind |-> "unresolved", s |-> name, id |-> "", nth |-> 0, fl |-> "", ly |-> ly] : name \in DOMAIN Unresolved, ly \in LoaderLayouts}
 TpOf(c) == IF c.kind = "unresolved" THEN Unresolved[c.s].tp ELSE Corpus[c.s]
 World(c) == MkWF(TpOf(c), {}, {}, [id |-> c.id, nth |-> c.nth], c.fl)
 Ref(c) == Render(World(c), "main", Ctx)
@@ -137,9 +150,10 @@ Variants == {[debug |-> d, writer |-> w] : d \in BOOLEAN, w \in {"", "buffer", "
 CaseOf(c) ==
     LET ref == Ref(c) IN
     [prop |-> "C17", key |-> ToJson(c),
-     tags |-> {"kind:" \o c.kind, "s:" \o c.s} \cup (IF c.kind = "fault" THEN {"spy:" \o c.id} ELSE {}) \cup (IF c.front THEN {"frontloader"} ELSE {}),
+     tags |-> {"kind:" \o c.kind, "s:" \o c.s} \cup (IF c.kind = "fault" THEN {"spy:" \o c.id} ELSE {}) \cup {"loaders:" \o c.ly},
      entry |-> "main", ctx |-> Ctx,
-     cfg |-> [faultid |-> c.id, faultnth |-> c.nth, faultload |-> c.fl, loader |-> TRUE, frontloader |-> c.front],
+     cfg |-> [faultid |-> c.id, faultnth |-> c.nth, faultload |-> c.fl, loader |-> TRUE, frontloader |-> c.ly = "front",
+              backloader |-> c.ly = "back", chainloader |-> c.ly = "chain", spynames |-> <<"range", "length">>],
      runs |-> {[label |-> (IF v.debug THEN "debug" ELSE "nodebug") \o "/" \o (IF v.writer = "" THEN "render" ELSE v.writer),
                 tp |-> Sources(TpOf(c), LMin), xcalls |-> [id \in {} |-> 0], debug |-> v.debug, writer |-> v.writer] : v \in Variants},
      expect |-> [ok |-> ref.ok, out |-> ref.out, err |-> ref.err,
